@@ -325,6 +325,25 @@ func scripted(out *verifutil.Out, rnd *verifutil.Rand, cfg Config, b *Blob, ckin
 			s.Close()
 		}
 	}
+	// 4a. a prefetch worker held inside the fetch of the altered chunk while VerifyTOC runs: its
+	//     critical section comes after the decision, so the chunk must be aborted, never committed
+	for _, k := range []string{"replace", "bitflip"} {
+		v := mk(k)
+		if v == nil {
+			continue
+		}
+		if s := open(out, rnd, cfg, b, pr, []*View{pr, v}, ckind, "straddle-"+k); s != nil {
+			s.setViewC(v)
+			if c := s.firstAltered(v); c != nil && c.COff >= 0 {
+				s.Straddle(c, s.B.D0)
+				s.readAll(rnd)
+				s.setViewC(pr)
+				s.readAll(rnd)
+				out.Distinct("straddle/" + k + "/" + b.Comp + "/" + ckind + "/" + cfg.Stack.Name)
+			}
+			s.Close()
+		}
+	}
 	// 4b. background fetch through another reader (Cache(WithReader)): a source that serves a
 	//     consistently forged (chunk, TOC) pair / an altered chunk with the right TOC / an altered TOC
 	for _, k := range []string{"forge", "replace", "toc-digest", "toc-nodigest"} {
@@ -344,7 +363,7 @@ func scripted(out *verifutil.Out, rnd *verifutil.Rand, cfg Config, b *Blob, ckin
 		}
 	}
 	// 5. altered TOC at open time
-	for _, k := range []string{"toc-digest", "toc-nodigest", "toc-size", "toc-offset", "toc-same", "toc-trailing", "forge", "ext-bitflip", "truncate", "bitflip-any"} {
+	for _, k := range []string{"toc-digest", "toc-nodigest", "nodigest-replace", "toc-size", "toc-offset", "toc-same", "toc-trailing", "forge", "ext-bitflip", "truncate", "bitflip-any"} {
 		v := mk(k)
 		if v == nil {
 			continue
@@ -507,7 +526,12 @@ func race(out *verifutil.Out, rnd *verifutil.Rand, cfg Config, pool []*Blob, idx
 	if rnd.Intn(6) == 0 {
 		d = digest.FromBytes(rnd.Bytes(4))
 	}
-	verr, cerr := s.Race(nil, d, s.pause(rnd))
+	var verr, cerr error
+	if c := s.firstAltered(v); s.Cur == v && c != nil && c.COff >= 0 && rnd.Bool() {
+		verr, cerr = s.Straddle(c, d) // deterministic: the fetch of c straddles VerifyTOC
+	} else {
+		verr, cerr = s.Race(nil, d, s.pause(rnd))
+	}
 	// afterwards: everything that can be read must be clean, everything cached must be pinned
 	if verr != nil {
 		s.Verify(s.B.D0)
